@@ -67,6 +67,7 @@ def thread_flags(raw, types):
             if len(ps) < 2 or J in ps:
                 continue
             plan = []
+            partial = False
             for P in ps:
                 pb = blocks[P]
                 pt = pb["term"]
@@ -77,14 +78,17 @@ def thread_flags(raw, types):
                         if s["k"] == "assign" and s["place"]["local"] == f:
                             idx = i if not s["place"]["proj"] else None
                     if idx is None:
-                        plan = None
-                        break
+                        partial = True          # f comes from further up on this edge: left alone
+                        continue
                     plan.append((P, "stmt", idx))
                 elif pt["k"] == "call" and pt.get("target") == J and pt.get("dest") is not None and not pt["dest"]["proj"] and pt["dest"]["local"] == f:
                     plan.append((P, "call", None))
                 else:
-                    plan = None
-                    break
+                    partial = True
+            if partial:
+                # only the edges on which the flag has just been set to a constant are threaded (`exhausted = true; break`)
+                plan = [x for x in plan if x[1] == "stmt" and blocks[x[0]]["stmts"][x[2]]["rv"]["k"] == "use"
+                        and blocks[x[0]]["stmts"][x[2]]["rv"]["op"]["k"] == "const" and "val" in blocks[x[0]]["stmts"][x[2]]["rv"]["op"]]
             if not plan:
                 continue
             # at least one arm must be a constant, otherwise there is nothing to gain
@@ -129,10 +133,46 @@ def thread_flags(raw, types):
                     pt["target"] = len(blocks) - 1
             n_threaded += 1
             changed = True
+            if partial:
+                _fold_if_constant(raw, J, f, t)
             break
         if not changed:
             break
     return n_threaded
+
+
+def _fold_if_constant(raw, J, f, t):
+    """after some edges into J were threaded away: if every definition of the flag from which J can still be reached sets the same
+    constant, J's test has one outcome"""
+    blocks = raw["blocks"]
+
+    def reach(starts):
+        seen, st = set(), list(starts)
+        while st:
+            x = st.pop()
+            if x in seen:
+                continue
+            seen.add(x)
+            st.extend(_all_succs(blocks[x]["term"]))
+        return seen
+    vals = set()
+    for i, blk in enumerate(blocks):
+        for s in blk["stmts"]:
+            if s["k"] == "assign" and s["place"]["local"] == f:
+                if s["place"]["proj"] or s["rv"]["k"] != "use" or s["rv"]["op"]["k"] != "const" or "val" not in s["rv"]["op"]:
+                    if J in reach(_all_succs(blk["term"])) or i == J:
+                        return
+                    continue
+                if i == J or J in reach(_all_succs(blk["term"])):
+                    vals.add(s["rv"]["op"]["val"])
+        tt = blk["term"]
+        if tt["k"] == "call" and tt.get("dest") is not None and tt["dest"]["local"] == f and J in reach(_all_succs(tt)):
+            return
+    if len(vals) != 1 or f <= raw["arg_count"]:
+        return
+    v = vals.pop()
+    tg = [tb for x, tb in t["targets"] if x == v]
+    blocks[J]["term"] = {"k": "goto", "target": tg[0] if tg else t["otherwise"], "span": t.get("span"), "folded": v}
 
 
 HB_TABLE = "hashbrown::raw::RawTable"
